@@ -122,13 +122,35 @@ class World:
             self.tainted.add(sid)
         return 'refused'
 
-    def send_headers(self, sid, kind, es, **kw):
-        hdrs = {'final': self.final_list(sid, True), 'info': INFO, 'trailers': TRAILERS}[kind]
+    def send_headers(self, sid, kind, es, hdrs=None, **kw):
+        hdrs = hdrs or {'final': self.final_list(sid, True), 'info': INFO, 'trailers': TRAILERS}[kind]
         verdict, what = self.m.send_headers_verdict(sid, kind, es)
         o = self.s.call('send_headers', sid, hdrs, end_stream=es, **kw)
         res = self.finish_local('headers:' + kind + ('+es' if es else ''), sid, verdict, what, o,
                                 lambda: self.m.apply_send_headers(sid, what, es))
         return res, o
+
+    def send_unencodable(self, sid, promised=None):
+        """send_headers / push_stream with header text that cannot be encoded (a lone surrogate): the call must
+        raise (UnicodeEncodeError is a ValueError) and, like every raising call, must leave no trace."""
+        bad = [('x-bad-text', 'v\udcff')]
+        if promised is None:
+            o = self.s.call('send_headers', sid, list(self.final_list(sid, True)) + bad)
+            name = 'headers:unencodable'
+        else:
+            o = self.s.call('push_stream', sid, promised, list(REQ) + bad)
+            name = 'push:unencodable'
+        self._count()
+        self.r.step('call', name, sid, promised, 'library', o.brief())
+        if o.ok:
+            self.violate('send:%s:unencodable-text-accepted' % name, repr(o.frames)[:120])
+            self.stop = True
+        elif not (o.is_h2error() or isinstance(o.exc, (ValueError, TypeError))):
+            self.violate('send:%s:undocumented-exception:%s' % (name, o.exc_name), repr(o.exc))
+            self.stop = True
+        if o.out:
+            self.violate('send:%s:refused-call-emitted' % name, o.out.hex()[:60])
+        return o
 
     def send_data(self, sid, es, n=3, pad=None):
         verdict, what = self.m.send_data_verdict(sid, es)
